@@ -271,7 +271,7 @@ func (u *U) fuzzValue(t reflect.Type, hint string, depth int) reflect.Value {
 			case 3:
 				b = bytes.Repeat([]byte{byte(u.r.N(256))}, 32)
 			case 4:
-				b = bytes.Repeat([]byte{0xff}, u.r.N(100000))
+				b = bytes.Repeat([]byte{0xff}, u.r.N(20000))
 			default:
 				b = make([]byte, u.r.N(300))
 				for i := range b {
